@@ -214,6 +214,61 @@ def work_workbook(job):
     return acc.result()
 
 
+PRODUCERS = ['SUM({r})', 'AVERAGE({r})', 'MIN({r})', 'MAX({r})', 'COUNT({r})', 'SUBTOTAL(9,{r})', 'SUBTOTAL(1,{r})',
+             'SUMPRODUCT({r})', 'SUMPRODUCT({r},{q})', 'SUMPRODUCT({r},{r})']
+DATASETS = [([2, 3], [4, 5]), ([2.5, 3], [4, 0.5]), ([10000000000, 3], [10000000000, 3]), ([3037000500, 1], [3037000500, 1]),
+            ([-7, 'x'], [2, True]), ([1e15, 1], [1e15, 1])]
+
+
+def work_chained(job):
+    """the result of one aggregate is a cell of the range another one reads: it must be a plain number (python int /
+    float) that the consumer counts like any other numeric cell"""
+    acc = Acc()
+    num = lambda x: x if isinstance(x, (int, float)) and not isinstance(x, bool) else 0    # noqa: E731
+    for a, b in DATASETS:
+        for p in PRODUCERS:
+            cells = {f'A{i + 1}': x for i, x in enumerate(a)}
+            cells.update({f'B{i + 1}': x for i, x in enumerate(b)})
+            cells['C1'] = '=' + p.format(r=f'A1:A{len(a)}', q=f'B1:B{len(b)}')
+            cells['C2'] = 1
+            consumers = ['SUM', 'AVERAGE', 'MIN', 'MAX', 'COUNT']
+            for j, q in enumerate(consumers):
+                cells[f'D{j + 1}'] = f'={q}(C1:C2)'
+            cells['D6'] = '=SUMPRODUCT(C1:C2,C1:C2)'
+            m = W.compile_inmem({'sheets': {'S': cells}, 'active': 'S'})
+            case = dict(kind='chained', fn=p.split('(')[0], producer=p, a=a, b=b)
+            try:
+                pv = m.evaluate('S!C1')
+            except Exception as exc:
+                acc.violation(dict(case, verdict='raised', exc=type(exc).__name__), f'={cells["C1"]} over {a}, {b} raised {type(exc).__name__}')
+                continue
+            acc.add('evaluations')
+            acc.add('states')
+            acc.add('distinct_nontrivial')
+            if type(pv) not in (int, float):
+                acc.violation(dict(case, verdict='not-a-plain-number', observed=repr(pv), otype=type(pv).__name__),
+                              f'{cells["C1"]} over {a}, {b} returned {pv!r} of type {type(pv).__name__}: not a number another '
+                              f'function will count')
+                pv = float(pv)
+            if 'SUMPRODUCT' in p:
+                exp_p = sum(num(x) * num(y) for x, y in zip(a, a if p.endswith('{r},{r})') else b)) if ',' in p else sum(num(x) for x in a)
+                if not W.vclose(pv, float(exp_p), rel=1e-12, abs_=1e-12):
+                    acc.violation(dict(case, verdict='wrong-value', observed=repr(pv), expected=float(exp_p)),
+                                  f'{cells["C1"]} over {a}, {b} = {pv!r}, sum of products = {float(exp_p)!r}')
+            for j, q in enumerate(consumers + ['SUMPRODUCT2']):
+                exp = ref(q, [pv, 1]) if q != 'SUMPRODUCT2' else pv * pv + 1
+                try:
+                    obs = ('ok', m.evaluate(f'S!D{j + 1}'))
+                except Exception as exc:
+                    obs = ('exc', type(exc).__name__, str(exc)[-100:])
+                acc.add('evaluations')
+                if obs[0] != 'ok' or not W.vclose(obs[1], exp, rel=1e-12, abs_=1e-12):
+                    acc.violation(dict(case, verdict='result-cell-not-counted', consumer=q, observed=jsonable(obs[:2]), expected=jsonable(exp)),
+                                  f'C1 {cells["C1"]} = {pv!r}, C2 = 1: ={q}(C1:C2) = {obs[:2]!r}, counting rules give {exp!r}')
+    acc.counts['transitions'] = acc.counts.get('evaluations', 0)
+    return acc.result()
+
+
 def run(ctx):
     m = 64
     maxlen = 6 if ctx.thorough else 4
@@ -221,6 +276,7 @@ def run(ctx):
     ctx.pmap(work_sumproduct, [(k, 32, 3 if ctx.thorough else 2) for k in range(32)], timeout=6000)
     vs = list(itertools.product(POOL, repeat=3))
     ctx.pmap(work_workbook, [(vs[k::16],) for k in range(16)], timeout=3000)
+    ctx.pmap(work_chained, [(0,)], timeout=600)
     ctx.counts['traces_validated_against_impl'] = ctx.counts.get('evaluations', 0)
     ctx.extra['pool'] = [repr(p) for p in POOL]
     ctx.extra['max_len'] = maxlen
@@ -228,6 +284,10 @@ def run(ctx):
 
 def replay(case):
     ev = feval.Evaluator()
+    if case['kind'] == 'chained':
+        r = work_chained((0,))
+        hits = [m for c, m in r['violations'] if all(c.get(x) == case.get(x) for x in ('producer', 'a', 'b', 'verdict', 'consumer'))]
+        return bool(hits), '\n'.join(hits[:2]) or 'no violation'
     if case['kind'] == 'sumproduct':
         r = work_sumproduct((0, 1, max(len(case.get('a', [1])), 1)))
         hits = [m for c, m in r['violations'] if c.get('a') == case.get('a') and c.get('b') == case.get('b')]
